@@ -139,6 +139,7 @@ func runHostile(c HostileCase) (res HostileResult) {
 	defer cancel()
 	type ret struct{ err error }
 	rch := make(chan ret, 1)
+	recvReturned := make(chan struct{})
 	var m0 runtime.MemStats
 	runtime.GC()
 	runtime.ReadMemStats(&m0)
@@ -146,6 +147,7 @@ func runHostile(c HostileCase) (res HostileResult) {
 	go func() {
 		_, err := transfer.RecvManifestMultiStream(ctx, b, outDir, transfer.Options{Resume: c.Resume, NoRootDir: c.NoRoot, HashAlg: "crc32c", ParallelFiles: 1})
 		rch <- ret{err}
+		close(recvReturned)
 	}()
 	// ---- the script
 	ctl, _ := a.OpenStream(ctx)
@@ -245,6 +247,8 @@ func runHostile(c HostileCase) (res HostileResult) {
 			case <-doneSeen:
 				got++
 			case <-waitUntil:
+				break waitDone
+			case <-recvReturned:
 				break waitDone
 			}
 		}
